@@ -22,10 +22,10 @@ FLOATS = [-2.0, -1.5, -1.0, 0.0, -0.0, 0.25, 0.5, 0.75, 1.0, 2.0, 2.5, 10.0, 12.
           "nan", "inf", "-inf", "abc", "", float("nan"), float("inf"), 10 ** 400, False, "2", "0.5"]
 BOOLS = [True, False, 0, 1, 2, -1, 0.0, 1.5, "true", "TRUE", "Yes", "off", "n", " on", "2", "maybe", "", "T", "F", "y", "NO"]
 ADDRS = ["1.2.3.4", "0.0.0.0", "255.255.255.255", "10.0.0.1", "256.1.1.1", "1.2.3", "01.2.3.4", " 1.2.3.4", "1.2.3.4 ",
-         "a.b.c.d", 16909060, "127.0.0.1", "", "1.2.3.4.5", "192.168.0.1"]
+         "a.b.c.d", 16909060, "127.0.0.1", "", "1.2.3.4.5", "192.168.0.1", "::1", "fe80::1", "::ffff:10.0.0.1"]
 NETS = ["10.0.0.0/8", "192.168.1.0/24", "192.168.1.1/24", "0.0.0.0/0", "1.2.3.4/32", "1.2.3.4", "10.0.0.0/255.0.0.0",
         "10.0.0.0/33", "172.16.0.0/12", "172.16.0.0/16", "10.0.0.0/30", "10.0.0.0/31", "", "net", "10.0.0.0/-1",
-        "10.1.0.0/16", "128.0.0.0/1", "10.0.0.4/30", "10.0.0.0/24"]
+        "10.1.0.0/16", "128.0.0.0/1", "10.0.0.4/30", "10.0.0.0/24", "2001:db8::/32", "::1"]
 HOSTS = ["localhost", "example.com", "a", "ab", "-ab", "a_b", "host.name.", "1.2.3.4", "no such host", "x" * 16, "x" * 15,
          "web1", "db.internal", "\u00e9.com", "", "nope.invalid", "Web1", "01.2.3.4", "my-host", "h!", "a.b"]
 FILES = ["a.txt", "/data/a.txt", "/data", "sub/b.txt", "~/c.txt", "/nope/x", "", "../data/a.txt", "dir", "/data/dir",
@@ -36,7 +36,8 @@ BYTES = [b"", b"ab", b"\x00\xff", "text", "\u00e9", "\udc80", b"Z", "aGVsbG8=", 
 SECRETS = ["s3cr3t!#1", "p\u00e4ss w\u00f6rd!", "hunter2!!", "x!y@z#", "tok!en~value", "pw!|one", "!!secret!!",
            "a-much-longer-secret!-that-exceeds-the-32-byte-key-length#0123456789", "user:pa!ss", "\u00e9!" * 25,
            "exactly-32-bytes-long-secret!!#32", "33-bytes-long-secret-value!!#0033x",
-           "sixteen-bytes!16", "a-secret-of-exactly-thirty-two!#", "48-bytes:" + "x!" * 19 + "#", "\u00e9\u00e9!!" * 4 + "pad!"[:0] + "!!!!!!!!"]
+           "sixteen-bytes!16", "a-secret-of-exactly-thirty-two!#", "48-bytes:" + "x!" * 19 + "#", "\u00e9\u00e9!!" * 4 + "pad!"[:0] + "!!!!!!!!",
+           "\u2003\u2002\u2003", "\u2003\t\u3000\u2003"]      # (blank to str.strip(), yet non-empty plaintexts; not bytes any document holds by chance)
 CHALLENGES = ["pw!one", b"pw!two", "", "\u00fcn\u00ef!", "x!" * 20, b"\x00\xff!", "pw!one ", "Pw!one", 5, None, ["pw"], "user:pass", "root:toor!",
               ":"]
 PLAIN = [None, True, False, 0, 7, -3, 2 ** 40, 1.5, -0.0, 0.1 + 0.2, [1 / 3, 1e22], "str", "", "x y", [], [1], [1, "two", None], {}, {"a": 1},
